@@ -84,8 +84,23 @@ impl Monitor for C04 {
                 if post.stsei.supply != pre.stsei.supply {
                     out.violation(P, "rebond_mints_nothing", format!("UpdateGlobalIndex changed the stSei supply {} -> {}", pre.stsei.supply, post.stsei.supply));
                 }
-                if post.pool_s > pre.pool_s && pre.claims_s() > 0 {
+                // what was re-bonded in this transaction must end up in the stSei pool (and so raise its rate)
+                let rebond: u128 = c
+                    .res
+                    .trace()
+                    .map(|t| {
+                        t.execs
+                            .iter()
+                            .filter(|e| e.callee == crate::setup::HUB && e.msg.starts_with("{\"bond_rewards\""))
+                            .map(|e| e.funds.iter().filter(|f| f.denom == crate::setup::USEI).map(|f| f.amount.u128()).sum::<u128>())
+                            .sum()
+                    })
+                    .unwrap_or(0);
+                if rebond > 0 {
                     out.count("c04.index_updates_rebonding");
+                    if post.pool_s != pre.pool_s + rebond {
+                        out.violation(P, "rebond_raises_stsei_rate", format!("{} usei were re-bonded but the stSei pool went {} -> {} (bSei pool {} -> {})", rebond, pre.pool_s, post.pool_s, pre.pool_b, post.pool_b));
+                    }
                 }
             }
         }
